@@ -218,29 +218,32 @@ Definition handler_consume (hd : handler) (cx : ctx) (index : N) (pk : pkt) : re
       Ok (HScript s id (S n), fst r, EvPacket s index [] :: snd r)
   end.
 
-(* ---- Filters ---- *)
-Definition filters := list (option handler).
+(* ---- Filters: Vec<Option<F>> indexed by PID, represented by its length and its occupied slots ---- *)
+Record filters := { f_len : N; f_slots : list (N * handler) }.
+Definition filters_empty : filters := {| f_len := 0; f_slots := [] |}.
 
-Definition filters_contains (fs : filters) (pid : N) : bool :=
-  match nth_error fs (N.to_nat pid) with Some (Some _) => true | _ => false end.
+Fixpoint assoc (l : list (N * handler)) (k : N) : option handler :=
+  match l with [] => None | (k', v) :: r => if k' =? k then Some v else assoc r k end.
+Fixpoint assoc_remove (l : list (N * handler)) (k : N) : list (N * handler) :=
+  match l with [] => [] | (k', v) :: r => if k' =? k then assoc_remove r k else (k', v) :: assoc_remove r k end.
+
 Definition filters_get (fs : filters) (pid : N) : option handler :=
-  match nth_error fs (N.to_nat pid) with Some o => o | None => None end.
+  if pid <? f_len fs then assoc (f_slots fs) pid else None.
+Definition filters_contains (fs : filters) (pid : N) : bool :=
+  match filters_get fs pid with Some _ => true | None => false end.
 
-Fixpoint set_slot (fs : filters) (i : nat) (v : option handler) : filters :=
-  match fs, i with
-  | [], _ => []
-  | _ :: r, O => v :: r
-  | x :: r, S j => x :: set_slot r j v
-  end.
+(* self.filters_by_pid[pid] = v, for pid < len *)
+Definition set_slot (fs : filters) (pid : N) (v : option handler) : filters :=
+  {| f_len := f_len fs;
+     f_slots := match v with Some h => (pid, h) :: assoc_remove (f_slots fs) pid | None => assoc_remove (f_slots fs) pid end |}.
 
-(* Filters::insert: `for _ in 0..=diff { push(None) }` then index assignment *)
+(* Filters::insert: `for _ in 0..=diff { push(None) }` (diff = pid - len >= 0) then index assignment *)
 Definition filters_insert (fs : filters) (pid : N) (h : handler) : res filters :=
-  let p := N.to_nat pid in
-  let fs' := if Nat.leb (length fs) p then fs ++ repeat None (p - length fs + 1) else fs in
-  do _ <- assert (Nat.ltb p (length fs')) 409;
-  Ok (set_slot fs' p (Some h)).
+  let len' := if f_len fs <=? pid then f_len fs + (pid - f_len fs + 1) else f_len fs in
+  do _ <- assert (pid <? len') 409;
+  Ok (set_slot {| f_len := len'; f_slots := f_slots fs |} pid (Some h)).
 Definition filters_remove (fs : filters) (pid : N) : filters :=
-  if Nat.ltb (N.to_nat pid) (length fs) then set_slot fs (N.to_nat pid) None else fs.
+  if pid <? f_len fs then set_slot fs pid None else fs.
 
 (* FilterChangeset::apply: drain in order *)
 Fixpoint apply_changes (fs : filters) (cs : list change) : res filters :=
@@ -253,7 +256,7 @@ Fixpoint apply_changes (fs : filters) (cs : list change) : res filters :=
 (* ---- Demultiplex ---- *)
 Definition demux_new (cx : ctx) : res (filters * ctx * list event) :=
   let '(cx1, h, ev) := construct cx (RqByPid 0) in
-  do fs <- filters_insert [] 0 h;
+  do fs <- filters_insert filters_empty 0 h;
   Ok (fs, cx1, ev).
 
 (* the body of push over the packets with a good sync byte.
@@ -284,7 +287,7 @@ Fixpoint push_loop (fs : filters) (cx : ctx) (cached : option N) (pkts : list (N
             else
               do hc <- handler_consume hd cx1 i pk;
               let '(hd', cx2, ev2) := hc in
-              let fs2 := set_slot fs1 (N.to_nat pid) (Some hd') in
+              let fs2 := set_slot fs1 pid (Some hd') in
               match cx_changes cx2 with
               | [] =>
                   do r <- push_loop fs2 cx2 (Some pid) rest; let '(f3, c3, e3) := r in Ok (f3, c3, ev1 ++ ev2 ++ e3)
